@@ -1,4 +1,4 @@
-"""bin/check <property> [--tier quick|thorough] [--replay file]
+"""bin/check <property> [--tier quick|thorough|deep] [--replay file]
 
 exit 0  every obligation generated from /repo's working tree was discharged
 exit 1  VIOLATION (a refuted obligation; counter-model replayed on the real code)
@@ -31,9 +31,9 @@ def _job(args):
         from .verify import Limits, verify_function, verify_lemma
         from .world import World
         lim = Limits()
-        if tier == "thorough":
+        if tier in ("thorough", "deep"):
             lim.solve_ms = 120000
-            lim.max_secs = 12000
+            lim.max_secs = 12000 if tier == "thorough" else 40000
         w = World(REPO, [VERIF])
         cs = ContractSet(w, modnames)
         if kind == "contract":
@@ -72,8 +72,11 @@ def entries_for(prop, cfg, tier="quick"):
         tags = e.get("options", {}).get("props")
         if tags is not None and prop not in tags.split():
             continue
-        if e.get("options", {}).get("tier") == "thorough" and tier != "thorough":
+        ctier = e.get("options", {}).get("tier")
+        if ctier == "thorough" and tier not in ("thorough", "deep"):
             continue
+        if ctier == "deep" and tier != "deep":
+            continue        # contracts that take an hour or more: bin/check <id> --tier deep
         out.append((e["kind"], f'{e["module"]}:{e["name"]}' if e["kind"] == "contract" else e["target"], e))
     return mods, out
 
@@ -123,7 +126,7 @@ def main(argv=None):
         if err.strip():
             print(err.strip(), file=sys.stderr)
         return 1 if rc == 1 else 0
-    os.environ["VERIF_TIER"] = a.tier
+    os.environ["VERIF_TIER"] = "thorough" if a.tier == "deep" else a.tier       # contract modules size their shapes by this
     cfg = checks.PROPS[prop]
     seed = int(os.environ.get("VERIF_SEED", "0"))
     t0 = time.time()
@@ -245,9 +248,9 @@ def main(argv=None):
                           rule=o.get("rule", "generator of the contract: boundary-biased random arguments"), target=e["target"]))
     if bjobs:
         def run_b(b):
-            n = b["n_thorough"] if a.tier == "thorough" else b["n_quick"]
+            n = b["n_thorough"] if a.tier in ("thorough", "deep") else b["n_quick"]
             try:
-                rc, out, err = native_run(["bounded", b["module"], b["name"], str(n), str(seed)], timeout=3000)
+                rc, out, err = native_run(["bounded", b["module"], b["name"], str(n), str(seed)], timeout=3000 if a.tier == "quick" else 14000)
                 r = json.loads(out.strip().splitlines()[-1]) if out.strip() else dict(error=err[-500:])
             except Exception as e:  # noqa: BLE001
                 r = dict(error=str(e))
@@ -296,8 +299,12 @@ def main(argv=None):
         ev["coverage"]["evaluations"] = max(n_obl + sum(b.get("evaluations", 0) for b in bounded), 1)
         ev["coverage"]["distinct_nontrivial"] = max(len({f["target"] for f in functions}) + sum(b.get("distinct", 0) for b in bounded), 2)
         ev["coverage"]["rule"] = "obligations generated per path of each function under contract; bounded inputs are boundary-biased random values"
-    # a run against a scratch copy (PYVC_REPO: seeded changes) must not overwrite the evidence of /repo
-    evdir = os.path.join(VERIF, "evidence") if os.environ.get("PYVC_REPO", "/repo") == "/repo" else os.path.join(VERIF, "work", "scratch_evidence")
+    # a run against a scratch copy (PYVC_REPO: seeded changes) must not overwrite the evidence of /repo;
+    # nor does a deep run, whose record goes beside it (the schema knows two tiers)
+    evdir = os.path.join(VERIF, "evidence") if os.environ.get("PYVC_REPO", "/repo") == "/repo" and a.tier != "deep" else os.path.join(VERIF, "work", "scratch_evidence" if a.tier != "deep" else "deep_evidence")
+    if a.tier == "deep":
+        ev["tier"] = "thorough"
+        ev["coverage"]["explanation"] = "(deep run: thorough plus the contracts that take an hour or more) " + ev["coverage"].get("explanation", "")
     os.makedirs(evdir, exist_ok=True)
     with open(os.path.join(evdir, f"{prop}.json"), "w") as f:
         json.dump(ev, f, indent=1, default=str)
